@@ -80,6 +80,7 @@ def gen_case(seed, tier='quick', index=1):
     names_of = {a: n for n, a in world['names'].items()}
     length = rng.choice([2, 4, 6, 10, 16, 24, 40])
     with_sets = rng.random() < 0.3
+    threads = rng.random() < 0.2
     inputs = [a for a in cells if world['level'][a] == 0]
     # every formula cell at least twice on copy 0 (positions random)
     plan = []
@@ -116,8 +117,15 @@ def gen_case(seed, tier='quick', index=1):
                         'ev': rng.randrange(len(evs[c])),
                         'target': rng.choice(inputs),
                         'value': worlds.enc(c04.new_value(rng))})
-        ops.append({'op': 'eval', 'copy': c, 'ev': rng.randrange(len(evs[c])),
-                    'target': t})
+        if rng.random() < 0.02:
+            ops.append({'op': 'checkpoint', 'copy': c,
+                        'path': '/simfs/ck.json'})
+        e = {'op': 'eval', 'copy': c, 'ev': rng.randrange(len(evs[c])),
+             'target': t}
+        if threads and rng.random() < 0.5:
+            # issued from another (sequentially run) caller thread
+            e['thread'] = True
+        ops.append(e)
     if faulty:
         evals = [i for i, o in enumerate(ops) if o['op'] == 'eval']
         for _ in range(rng.choice([1, 1, 2, 3])):
@@ -189,6 +197,21 @@ def run_case(case):
         return run_sched(case, fs)
     finally:
         uninstall_fs()
+
+
+def call_in_thread(st, fn, *args):
+    """Run one call in a fresh caller thread and wait for it (no
+    concurrency: the scheduler still decides who runs - one at a time)."""
+    import threading
+    box = []
+
+    def body():
+        with st:
+            box.append(outcome_of(fn, *args))
+    t = threading.Thread(target=body, name='sim-caller')
+    t.start()
+    t.join()
+    return box[0] if box else ['exc', 'ThreadDied', False]
 
 
 def run_sched(case, fs):
@@ -273,6 +296,16 @@ def run_sched(case, fs):
                 log.append([seq, 'persist', c, fired, out[0]])
                 sig.append('p' + (fired[0][:1] if fired else ''))
                 continue
+            if op['op'] == 'checkpoint':
+                o1 = outcome_of(models[c].persist_to_json_file, op['path'])
+                o2 = outcome_of(models[c].construct_from_json_file,
+                                op['path'], build_code=True) \
+                    if o1[0] == 'ok' else ['skipped']
+                fs.reset_op()
+                bump('probe:same_model_reloaded_from_checkpoint')
+                log.append([seq, 'checkpoint', c, o1[0], o2[0]])
+                sig.append('k')
+                continue
             if op['op'] == 'newev':
                 evs[c].append((op['kind'],
                                make_evaluator(models[c], op['kind'], uf)))
@@ -303,8 +336,12 @@ def run_sched(case, fs):
                 at = fault.get('step') or max(1, int(steps * fault['frac']))
             st = Stepper(interrupt_at=at, max_steps=SAFETY_STEPS)
             fl0 = uf.fired
-            with st:
-                out = outcome_of(ev.evaluate, target)
+            if op.get('thread'):
+                out = call_in_thread(st, ev.evaluate, target)
+                bump('probe:evaluated_from_another_thread')
+            else:
+                with st:
+                    out = outcome_of(ev.evaluate, target)
             bump('sim_steps', st.steps)
             fired = None
             if st.fired == 'interrupt':
